@@ -4,6 +4,8 @@
 -/
 import Gts.Lemmas.Push
 import Gts.Lemmas.LocRoundTrip
+import Gts.Lemmas.CanonKeys
+import Gts.Lemmas.CanonRead
 namespace Gts.C06
 open Gts Loc Pars
 
@@ -164,5 +166,288 @@ behind), printing it is a fixed point of parse-then-print. -/
 theorem accepted_fixed_point_partial (s : Pars.Bytes) (l : Loc) (r : Pars.Bytes)
     (_hp : parseLocation s = .ok (l, r)) (hc : canonP l = true) :
     parseLocation (printB l) = .ok (l, []) := parse_print l hc
+
+/-! ### canonical locations are closed under the edit operations (as far as that is true)
+
+`Loc.canonP` is the domain of the round trip above.  The locations of an edited record are built by
+`Location.Shift / Expand / Reverse / Normalize / Complement`; each of them maps the parts of a `Joined`
+and re-applies `Join`.  `Join` is not idempotent (K3 above): a REPLACING push (`Between{p}` replaced by
+a following `Point{p}` / `Ranged{p, …}`) does not look at the element in front of the replaced one,
+so parts `… p, p^p+1, p …` reduce to `… p, p`, which a second `Join` — the one `ParseLocation`
+applies to the printed text — reduces again.  `Loc.k3One` is exactly that shape at one push;
+`joinK3` / `expandK3` / `shiftK3` / `reverseK3` / `normalizeK3` (`Gts/Spec/CanonGuard.lean`) say
+whether it arises anywhere in the evaluation.  Results:
+
+  operation                      closed?   theorem
+  `Join` (the reduction itself)  no        `join_canon_full_refuted`, `join_canon_adj_refuted`, `join_canon_partial`
+  `Shift(i, n)`, `0 ≤ n`         YES       `shift_canon` (no guard: an insertion moves the keys of
+                                           neighbouring parts by jointly injective maps, no rule fires)
+  `Expand(i, n)`, `0 ≤ n`        yes for well-formed locations: `expand_insert_canon_partial`
+                                           (without `wf` neither proved nor refuted)
+  `Expand(i, n)`, `n < 0`        no        `expand_canon_full_refuted` (a deleted part becomes a
+                                           between-site between two equal sites), `expand_canon_partial`
+  `Reverse(L)`                   no        `reverse_canon_coords_refuted` (K1: `Between{L}` gets the
+                                           coordinate −1), `reverse_canon_full_refuted` (K1 + K3),
+                                           `reverse_canon_partial`
+  `Normalize(L)`                 no        `normalize_canon_full_refuted`, `normalize_canon_partial`,
+                                           `rotate_canon_partial` (= `Normalize ∘ Expand(0, n)`)
+  `Complement()`                 YES       `complement_canon`
+-/
+
+/-- **What the reader makes of a written join that is not canonical**: for ANY `Joined` whose parts
+are canonical — a fixed point of `Join` or not — `ParseLocation` reads the printed text back as `Join`
+of the parts.  So a location gts writes is read back as itself exactly when it is canonical
+(`parse_print`), and as the RE-REDUCED location otherwise: the edited locations of the refuted
+statements below are written as one location and read back as another. -/
+theorem written_join_read_back (l : Loc) (ls : List Loc) (hc : canonPList (l :: ls) = true) :
+    parseLocation (printB (joined (l :: ls))) = .ok (join (l :: ls), []) :=
+  parseLocation_join_parts l ls hc
+
+example : canonPList [point 3, point 3] = true ∧ (join [point 3, point 3]).beq (point 3) = true := by decide
+
+/-- FULL STATEMENT (false, known finding K3): "`Join` of canonical arguments is canonical".  The
+arguments `4, 3^4, 4` (each canonical) reduce to `join(4,4)`, which is not a fixed point of `Join`. -/
+theorem join_canon_full_refuted :
+    ¬ (∀ xs : List Loc, xs ≠ [] → canonPList xs = true → canonP (join xs) = true) := by
+  intro h
+  have := h [point 3, between 3, point 3] (by simp) (by decide)
+  revert this
+  decide
+
+/-- **`Join` of canonical arguments is canonical** — every arity and nesting — unless the K3 shape
+arises while the parts are pushed (`joinK3 xs = false`), provided no two `Complemented` parts become
+neighbours (`noAdjCompl` of the flattened argument list: the complemented / complemented rule
+re-joins the two insides, where K3 can arise out of sight of `joinK3`; the edit operations never
+bring two complemented parts together). -/
+theorem join_canon_partial (xs : List Loc) (hne : xs ≠ []) (hc : canonPList xs = true)
+    (hadj : noAdjCompl (flatJList xs) = true) (hk3 : joinK3 xs = false) : canonP (join xs) = true := by
+  rw [canonPList_iff] at hc
+  rw [canonP_iff]
+  refine ⟨join_leaves (mergeOK_leafCoord coordOk) xs hc.1, join_struct xs hc.2 ?_ hadj hk3⟩
+  match xs, hne, hc.2 with
+  | x :: r, _, h =>
+    simp only [structPList_cons, Bool.and_eq_true] at h
+    have := flatJ_ne_nil_of_struct x h.1
+    intro he
+    simp only [flatJList, List.append_eq_nil_iff] at he
+    exact this he.1
+
+/-- the guard `noAdjCompl` of `join_canon_partial` cannot be dropped: two neighbouring `Complemented`
+arguments are merged by re-joining their insides, and K3 arises INSIDE that merge, out of sight of
+`joinK3`: `Join(complement(4), complement(join(4,3^4)))` is `complement(join(4,4))`. -/
+theorem join_canon_adj_refuted :
+    ¬ (∀ xs : List Loc, xs ≠ [] → canonPList xs = true → joinK3 xs = false → canonP (join xs) = true) := by
+  intro h
+  have := h [compl (point 3), compl (joined [point 3, between 3])] (by simp) (by decide) (by decide)
+  revert this
+  decide
+
+/-- non-vacuity: a merge, a dropped duplicate, a replacing push and a complemented part -/
+example : ([ranged 0 3 true false, ranged 3 6 false false, between 9, point 9, point 9,
+      compl (joined [point 20, point 12])] : List Loc) ≠ [] ∧
+    canonPList [ranged 0 3 true false, ranged 3 6 false false, between 9, point 9, point 9,
+      compl (joined [point 20, point 12])] = true ∧
+    noAdjCompl (flatJList [ranged 0 3 true false, ranged 3 6 false false, between 9, point 9, point 9,
+      compl (joined [point 20, point 12])]) = true ∧
+    joinK3 [ranged 0 3 true false, ranged 3 6 false false, between 9, point 9, point 9,
+      compl (joined [point 20, point 12])] = false := by
+  refine ⟨by simp, by decide, by decide, by decide⟩
+
+/-- **`Shift(i, n)` (gts.Insert), `0 ≤ n`: canonical stays canonical.**  FULL statement, every
+nesting depth and arity, split ranges included (`Ranged.Shift` of a range around the insertion point
+is a two-part join): no coordinate above `M` and `M + n ≤ 2^62` (the coordinate clause), nothing else.
+An insertion never meets K3: it keeps the kind of every part and moves the coordinates that `Push`
+compares by two monotone, jointly injective maps, so no reduction rule fires at all. -/
+theorem shift_canon (l : Loc) (i n M : Int) (hc : canonP l = true) (hn : 0 ≤ n)
+    (hle : coordsLe M l = true) (hM : M + n ≤ 4611686018427387904) : canonP (shift l i n) = true :=
+  shift_canon_guarded l i n M hc hn hle hM (shiftK3_false i n hn l ((canonP_iff l).mp hc).2)
+
+/-- non-vacuity: the insertion point lies inside the first range (it splits) and in front of the
+complemented join -/
+example : canonP (joined [ranged 0 10 true false, compl (joined [ranged 30 40 false false, point 20]),
+      ordered [ambiguous 50 60, between 70]]) = true ∧
+    coordsLe 100 (joined [ranged 0 10 true false, compl (joined [ranged 30 40 false false, point 20]),
+      ordered [ambiguous 50 60, between 70]]) = true ∧
+    (shift (joined [ranged 0 10 true false, compl (joined [ranged 30 40 false false, point 20]),
+      ordered [ambiguous 50 60, between 70]]) 5 7).beq
+      (joined [ranged 0 5 true false, ranged 12 17 false false,
+        compl (joined [ranged 37 47 false false, point 27]), ordered [ambiguous 57 67, between 77]]) = true := by
+  refine ⟨by decide, by decide, by decide⟩
+
+/-- FULL STATEMENT for `Expand` (false: the K3 shape is reachable by a deletion): "canonical stays
+canonical under `Expand(i, n)` with `0 ≤ i`".  Witness `join(7,4..5,7..9)` and the deletion of the three
+residues 4..6 (`Expand(3, -3)`): the middle part lies inside the deletion and becomes the between-site
+`3^4`, the two others both move to residue 4; `Push` replaces the between-site by the range without
+looking at the point in front of it.  The result `join(4,4..6)` is what gts writes; `ParseLocation`
+reads it back as `4..6` (replayed on the real code: `loc.expand`, `loc.print`, `loc.parse`). -/
+theorem expand_canon_full_refuted :
+    ¬ (∀ (l : Loc) (i n : Int), canonP l = true → 0 ≤ i → coordsLe 4611686018427387904 l = true → n ≤ 0 →
+        canonP (expand l i n) = true) := by
+  intro h
+  have := h (joined [point 6, ranged 3 5 false false, ranged 6 9 false false]) 3 (-3) (by decide) (by decide)
+    (by decide) (by decide)
+  revert this
+  decide
+
+/-- … what the witness turns into, its text, and what the reader makes of that text -/
+theorem expand_canon_witness_read_back :
+    (expand (joined [point 6, ranged 3 5 false false, ranged 6 9 false false]) 3 (-3)).beq
+      (joined [point 3, ranged 3 6 false false]) = true ∧
+    printB (joined [point 3, ranged 3 6 false false]) = str "join(4,4..6)" ∧
+    parseLocation (printB (joined [point 3, ranged 3 6 false false])) = .ok (ranged 3 6 false false, []) := by
+  refine ⟨by decide, by decide +kernel, ?_⟩
+  rw [written_join_read_back (point 3) [ranged 3 6 false false] (by decide)]
+  exact congrArg (fun l => Except.ok (l, ([] : Bytes))) (Loc.beq_eq _ _ (by decide))
+
+/-- **`Expand(i, n)` (Delete with `n < 0`, Embed / Concat / guest features with `n ≥ 0`):
+canonical stays canonical unless the K3 shape arises** in one of its `Join`s (`expandK3 l i n = false`):
+`0 ≤ i` or `0 ≤ n`, no coordinate above `M`, `M + n ≤ 2^62` (for a deletion take `M = 2^62`). -/
+theorem expand_canon_partial (l : Loc) (i n M : Int) (hc : canonP l = true) (hi : 0 ≤ i ∨ 0 ≤ n)
+    (hle : coordsLe M l = true) (hM : M + n ≤ 4611686018427387904) (hk3 : expandK3 l i n = false) :
+    canonP (expand l i n) = true := expand_canon l i n M hc hi hle hM hk3
+
+/-- non-vacuity: a deletion that swallows the middle part of a join (it becomes a between-site, which
+the following range absorbs) and clips a complemented range -/
+example : canonP (joined [ranged 0 4 false false, ranged 5 7 false false, ranged 9 12 false false,
+      compl (ranged 6 20 false true)]) = true ∧
+    coordsLe 4611686018427387904 (joined [ranged 0 4 false false, ranged 5 7 false false,
+      ranged 9 12 false false, compl (ranged 6 20 false true)]) = true ∧
+    expandK3 (joined [ranged 0 4 false false, ranged 5 7 false false, ranged 9 12 false false,
+      compl (ranged 6 20 false true)]) 5 (-4) = false ∧
+    (expand (joined [ranged 0 4 false false, ranged 5 7 false false, ranged 9 12 false false,
+      compl (ranged 6 20 false true)]) 5 (-4)).beq
+      (joined [ranged 0 4 false false, ranged 5 8 false false, compl (ranged 5 16 true true)]) = true := by
+  refine ⟨by decide, by decide, by decide, by decide⟩
+
+/-- **`Expand(i, n)` with `0 ≤ n` on a well-formed location** (every `Ranged` / `Ambiguous` non-empty,
+`Loc.wf`: what `PartialRange` and the parser build): canonical stays canonical, NO K3 guard.
+(FULL statement = the same without `wf`: an empty `Ranged{s, s}` turns into the between-site, a rule
+can fire; neither proved nor refuted, no counterexample among all joins of up to four parts over
+coordinates 0..2.) -/
+theorem expand_insert_canon_partial (l : Loc) (i n M : Int) (hc : canonP l = true) (hw : wf l = true)
+    (hn : 0 ≤ n) (hle : coordsLe M l = true) (hM : M + n ≤ 4611686018427387904) :
+    canonP (expand l i n) = true :=
+  expand_canon l i n M hc (Or.inr hn) hle hM (expandK3_false i n hn l ((canonP_iff l).mp hc).2 hw)
+
+example : canonP (joined [ranged 0 10 true false, compl (joined [ranged 30 40 false false, point 20])]) = true ∧
+    wf (joined [ranged 0 10 true false, compl (joined [ranged 30 40 false false, point 20])]) = true ∧
+    coordsLe 40 (joined [ranged 0 10 true false, compl (joined [ranged 30 40 false false, point 20])]) = true ∧
+    (expand (joined [ranged 0 10 true false, compl (joined [ranged 30 40 false false, point 20])]) 5 7).beq
+      (joined [ranged 0 17 true false, compl (joined [ranged 37 47 false false, point 27])]) = true := by
+  refine ⟨by decide, by decide, by decide, by decide⟩
+
+/-- FULL STATEMENT for `Reverse`, coordinate clause (false, known finding K1): "a canonical location
+inside a sequence of `L` residues (`coordsWithin`) stays canonical under `Reverse(L)`".
+`Between.Reverse` is `L - 1 - p` where the mirror image of the site `p` is `L - p`: the site behind
+the last residue, `10^11` in a sequence of ten residues, gets the coordinate −1 and is written `-1^0`. -/
+theorem reverse_canon_coords_refuted :
+    ¬ (∀ (l : Loc) (L : Int), canonP l = true → 0 ≤ L → L ≤ 4611686018427387904 → coordsWithin l L = true →
+        canonP (reverse l L) = true) := by
+  intro h
+  have := h (between 10) 10 (by decide) (by decide) (by decide) (by decide)
+  revert this
+  decide
+
+/-- FULL STATEMENT for `Reverse`, structural clauses (false: K1 and K3 together): "a canonical
+location whose mirror image has non-negative coordinates (`revIn`) stays canonical under `Reverse(L)`".
+Witness `join(3,2^3,1^2,3)` in a sequence of five residues: the parts are mirrored to `3, 4^5, 3^4, 3`
+— with the correct mirror image `5 - p` of a between-site they would be `3, 5^6, 4^5, 3` and nothing
+would reduce —, `4^5` is dropped behind the point 3, `3^4` is replaced by the last point, and
+`join(3,3)` is what gts writes (read back as `3`). -/
+theorem reverse_canon_full_refuted :
+    ¬ (∀ (l : Loc) (L : Int), canonP l = true → L ≤ 4611686018427387904 → revIn L l = true →
+        canonP (reverse l L) = true) := by
+  intro h
+  have := h (joined [point 2, between 2, between 1, point 2]) 5 (by decide) (by decide) (by decide)
+  revert this
+  decide
+
+theorem reverse_canon_witness_read_back :
+    (reverse (joined [point 2, between 2, between 1, point 2]) 5).beq (joined [point 2, point 2]) = true ∧
+    printB (joined [point 2, point 2]) = str "join(3,3)" ∧
+    parseLocation (printB (joined [point 2, point 2])) = .ok (point 2, []) := by
+  refine ⟨by decide, by decide +kernel, ?_⟩
+  rw [written_join_read_back (point 2) [point 2] (by decide)]
+  exact congrArg (fun l => Except.ok (l, ([] : Bytes))) (Loc.beq_eq _ _ (by decide))
+
+/-- **`Reverse(L)`: canonical stays canonical unless the K3 shape arises** (`reverseK3 l L = false`),
+for `L ≤ 2^62` and a location whose mirror image has non-negative coordinates (`revIn L l`: spans end
+at or before `L`, points AND between-sites lie before `L` — K1). -/
+theorem reverse_canon_partial (l : Loc) (L : Int) (hc : canonP l = true) (hL : L ≤ 4611686018427387904)
+    (hin : revIn L l = true) (hk3 : reverseK3 l L = false) : canonP (reverse l L) = true :=
+  reverse_canon l L hc hL hin hk3
+
+example : canonP (joined [ranged 0 3 true false, compl (joined [point 7, between 5]), ranged 10 20 false true]) = true ∧
+    revIn 20 (joined [ranged 0 3 true false, compl (joined [point 7, between 5]), ranged 10 20 false true]) = true ∧
+    reverseK3 (joined [ranged 0 3 true false, compl (joined [point 7, between 5]), ranged 10 20 false true]) 20 = false ∧
+    (reverse (joined [ranged 0 3 true false, compl (joined [point 7, between 5]), ranged 10 20 false true]) 20).beq
+      (joined [ranged 0 10 true false, compl (joined [between 14, point 12]), ranged 17 20 false true]) = true := by
+  refine ⟨by decide, by decide, by decide, by decide⟩
+
+/-- FULL STATEMENT for `Normalize` (false: K3 reached across the origin): "canonical stays canonical
+under `Normalize(L)`, `0 < L`".  Witness `join(1,4^5,1)` in a circular sequence of four residues: the
+site behind the last residue is the site in front of the first one, `Normalize` maps it to `0^1`, and
+the parts `1, 0^1, 1` reduce to `join(1,1)`. -/
+theorem normalize_canon_full_refuted :
+    ¬ (∀ (l : Loc) (L : Int), canonP l = true → 0 < L → L ≤ 4611686018427387904 → coordsWithin l L = true →
+        canonP (normalize l L) = true) := by
+  intro h
+  have := h (joined [point 0, between 4, point 0]) 4 (by decide) (by decide) (by decide) (by decide)
+  revert this
+  decide
+
+/-- **`Normalize(L)`, `0 < L ≤ 2^62`: canonical stays canonical unless the K3 shape arises**
+(`normalizeK3 l L = false`); a range across the origin becomes a two-part join. -/
+theorem normalize_canon_partial (l : Loc) (L : Int) (hc : canonP l = true) (hL0 : 0 < L)
+    (hL : L ≤ 4611686018427387904) (hk3 : normalizeK3 l L = false) : canonP (normalize l L) = true :=
+  normalize_canon l L hc hL0 hL hk3
+
+example : canonP (joined [ranged 8 13 true false, compl (point 15), between 20]) = true ∧
+    normalizeK3 (joined [ranged 8 13 true false, compl (point 15), between 20]) 10 = false ∧
+    (normalize (joined [ranged 8 13 true false, compl (point 15), between 20]) 10).beq
+      (joined [ranged 8 10 true false, ranged 0 3 false false, compl (point 5), between 0]) = true := by
+  refine ⟨by decide, by decide, by decide⟩
+
+/-- **Rotate = `Normalize(L) ∘ Expand(0, n)`** on a well-formed canonical location: canonical unless the
+K3 shape arises in the `Normalize` step (the `Expand` step is an insertion and needs no guard). -/
+theorem rotate_canon_partial (l : Loc) (n L M : Int) (hc : canonP l = true) (hw : wf l = true) (hn : 0 ≤ n)
+    (hle : coordsLe M l = true) (hM : M + n ≤ 4611686018427387904) (hL0 : 0 < L)
+    (hL : L ≤ 4611686018427387904) (hk3 : normalizeK3 (expand l 0 n) L = false) :
+    canonP (normalize (expand l 0 n) L) = true :=
+  normalize_canon _ L (expand_insert_canon_partial l 0 n M hc hw hn hle hM) hL0 hL hk3
+
+example : canonP (joined [ranged 1 4 false false, compl (ranged 6 9 true false)]) = true ∧
+    wf (joined [ranged 1 4 false false, compl (ranged 6 9 true false)]) = true ∧
+    coordsLe 10 (joined [ranged 1 4 false false, compl (ranged 6 9 true false)]) = true ∧
+    normalizeK3 (expand (joined [ranged 1 4 false false, compl (ranged 6 9 true false)]) 0 3) 10 = false ∧
+    (normalize (expand (joined [ranged 1 4 false false, compl (ranged 6 9 true false)]) 0 3) 10).beq
+      (joined [ranged 4 7 false false, compl (joined [ranged 9 10 true false, ranged 0 2 false false])]) = true := by
+  refine ⟨by decide, by decide, by decide, by decide, by decide⟩
+
+/-- **`Complement()`: canonical stays canonical** (it wraps, or unwraps a wrapped location). -/
+theorem complement_canon (l : Loc) (hc : canonP l = true) : canonP l.complement = true := by
+  cases l with
+  | compl x =>
+    simp only [Loc.canonP, Bool.and_eq_true] at hc
+    simpa [Loc.complement] using hc.1
+  | between p => simpa [Loc.complement, Loc.canonP, Loc.isComplC] using hc
+  | point p => simpa [Loc.complement, Loc.canonP, Loc.isComplC] using hc
+  | ranged a b c d => simpa [Loc.complement, Loc.canonP, Loc.isComplC] using hc
+  | ambiguous a b => simpa [Loc.complement, Loc.canonP, Loc.isComplC] using hc
+  | joined ls => simpa [Loc.complement, Loc.canonP, Loc.isComplC] using hc
+  | ordered ls => simpa [Loc.complement, Loc.canonP, Loc.isComplC] using hc
+
+example : canonP (compl (joined [point 1, point 5])) = true ∧
+    (compl (joined [point 1, point 5])).complement.beq (joined [point 1, point 5]) = true := by decide
+
+/-- the coordinate guards are implied by the oracle's in-bounds predicate: a location inside a
+sequence of `L` residues has no coordinate above `L` … -/
+theorem coordsLe_of_coordsWithin (l : Loc) (L : Int) (h : coordsWithin l L = true) : coordsLe L l = true :=
+  coordsLe_of_within l L h
+
+/-- … and its mirror image has non-negative coordinates if no between-site sits at `L` itself (K1) -/
+theorem revIn_of_coordsWithin (l : Loc) (L : Int) (h : coordsWithin l L = true)
+    (hb : (leaves l).all (fun u => !u.beq (between L)) = true) : revIn L l = true :=
+  revIn_of_within l L h hb
 
 end Gts.C06
